@@ -17,9 +17,12 @@
       `&T` / `&mut T` / `*x` are transparent (the accepted subset has no aliasing: `&mut` is only
       accepted for `self`, for places passed to `std::mem::take`, and for by-value semantic models);
       allocation failure / capacity overflow of `vec![x; n]` / `resize` is not modelled;
-    * `&mut self` methods return the new `self` paired with the result; a `Result`-returning `&mut self`
-      method returns `Res.err e` WITHOUT a state: the translator rejects such a function when an
-      `Err` return is textually preceded by a mutation of `self`;
+    * `&mut self` methods (and functions with `&mut` cursor / integer parameters) return the new state paired with
+      the result; when such a function returns `Result`, its `Err` ALSO carries the state the `&mut` references are
+      left in: `Res (E × State) (State × T)` (`State` = `self`, then the `&mut` parameters).  At `callee(..)?` the
+      places handed to the callee are updated from the callee's error state before the caller's own state is
+      attached to the (converted) error.  The semantic-model methods fail before touching their cursor, except
+      `write_all`, `read_exact` and `get_bytes_with_varint_length`, whose `Err` carries the changed cursor;
     * `Ok(v)` / `Err(e)` in return position of a `Result` fn become `.ok v` / `.err e` of `Res`;
     * statements that are `log::…!(…)` macro invocations are IGNORED (nothing is emitted for them;
       their arguments are formatting-only reads in the accepted sources);
@@ -29,8 +32,7 @@
     * the `octets` cursor types `OctetsMut` / `Octets` and `std::ops::Range<u64>` are replaced by the by-value
       models of section "octets" below, written after octets-0.3.7 `src/lib.rs` (`put_u!`/`get_u!`/`peek_u!`
       macros, `put_varint_with_len`, `get_varint`, `get_bytes`, `put_bytes`, `varint_len`, `varint_parse_len`);
-      a `&mut OctetsMut` / `&mut Octets` parameter is threaded through (returned with the result) and is DROPPED
-      when the function returns `Err` (callers discard the cursor on error);
+      a `&mut OctetsMut` / `&mut Octets` parameter is threaded through (returned with the result, also on `Err`);
     * `let x = &mut place;` makes `x` an ALIAS of the place: every later use of `x` re-reads / writes the
       place (sound because the borrow checker forbids any other access to the place while `x` is live);
       taking the reference evaluates the place once (index bounds check);
@@ -48,7 +50,10 @@
     * `VecDeque<T>` is a `List T` (`push_back` appends, `pop_front` takes the head); `&mut uN` parameters are threaded
       through like the cursors (returned with the result; `*p` reads / writes the current value);
       `while let PAT = e { … }` evaluates `e` at the start of every round (fuelled like `while`);
-    * `std::time::Duration` is a `Nat` of nanoseconds (`Duration::MAX` as in std; comparison / copy only);
+    * `std::time::Duration` is a `Nat` of nanoseconds (`Duration::MAX`, `from_secs`, `from_millis` as in std;
+      comparison, copy, checked `+` / `-`); `BTreeMap` / `HashMap` with integer keys are key-sorted association lists
+      (section "BTreeMap" below; HashMap iteration is rejected); `let x = map.entry(k).or_insert_with(|| e)` makes
+      `x` an alias of the map entry; a `const` nested in a block is a `let`; `Option::expect(msg)` is `unwrap`;
       `std::net::SocketAddr` is the inductive `SocketAddr` whose `==` is structural; `Box<T>` is `T`;
       `==` / `!=` on byte arrays, table-mapped types and selected structs/enums is equality of the representation
       (their `PartialEq` impls are the derived / std structural ones);
@@ -326,9 +331,52 @@ def Range.contains (r : Range) (x : Nat) : Bool := decide (r.start ≤ x ∧ x <
 /-- `Range::is_empty()` (`!(start < end)`) -/
 def Range.is_empty (r : Range) : Bool := decide (¬ r.start < r.«end»)
 
+/-! ### `BTreeMap<uN, V>` / `HashMap<uN, V>`: association lists sorted by key
+
+A map is the list of its bindings in ascending key order (the invariant "strictly ascending keys" is maintained by
+`insert` / `remove` and assumed by the equivalence theorems).  For a `BTreeMap` this is also its iteration order.
+A `HashMap` is modelled the same way, but its iteration order is unspecified in Rust: the translator REJECTS `iter()`,
+`keys()`, `values()`, `drain()` and `for … in` on a `HashMap` (translated code must not depend on that order). -/
+abbrev Map (α : Type) := List (Nat × α)
+
+namespace Map
+variable {α : Type}
+/-- `get(&k)` -/
+def find? : Map α → Nat → Option α
+  | [], _ => none
+  | (k', v) :: r, k => if k' = k then some v else find? r k
+/-- `contains_key(&k)` -/
+def contains_key (m : Map α) (k : Nat) : Bool := (find? m k).isSome
+/-- `insert(k, v)` (replaces an existing binding) -/
+def insert : Map α → Nat → α → Map α
+  | [], k, v => [(k, v)]
+  | (k', v') :: r, k, v =>
+    if k < k' then (k, v) :: (k', v') :: r
+    else if k = k' then (k, v) :: r
+    else (k', v') :: insert r k v
+/-- `remove(&k)` (the map without the binding) -/
+def remove : Map α → Nat → Map α
+  | [], _ => []
+  | (k', v') :: r, k => if k' = k then r else (k', v') :: remove r k
+/-- reading through a reference into an entry that is known to exist (`entry(k).or_insert_with(..)`, `get_mut(k)`) -/
+def index {ε ρ : Type} (m : Map α) (k : Nat) (site : String) : Exec ε ρ α :=
+  match find? m k with
+  | some v => .val v
+  | none => .panic site
+end Map
+
 /-- `std::time::Duration` is its number of nanoseconds; `Duration::MAX` = `u64::MAX` s + 999_999_999 ns.
     Only comparison and copy are supported by the translator. -/
 def Duration.MAX : Nat := 2 ^ 64 * 1000000000 - 1
+/-- `Duration::from_secs(s)` / `from_millis(ms)` for `u64` arguments (always representable) -/
+def Duration.from_secs (s : Nat) : Nat := s * 1000000000
+def Duration.from_millis (ms : Nat) : Nat := ms * 1000000
+/-- `a + b` on Durations: panics on overflow -/
+def Duration.add {ε ρ : Type} (a b : Nat) (site : String) : Exec ε ρ Nat :=
+  if a + b ≤ Duration.MAX then .val (a + b) else .panic site
+/-- `a - b` on Durations: panics on underflow -/
+def Duration.sub {ε ρ : Type} (a b : Nat) (site : String) : Exec ε ρ Nat :=
+  if b ≤ a then .val (a - b) else .panic site
 
 /-- `std::net::SocketAddr`: `V4(ip, port)` / `V6(ip, port, flowinfo, scope_id)`; `==` is the derived
     structural equality of all components -/
@@ -498,10 +546,14 @@ def get_bytes (b : Octets) (len : Nat) : Res BufferTooShortError (Octets × Octe
   else .ok ({ b with off := b.off + len }, { buf := (b.buf.drop b.off).take len, off := 0 })
 
 /-- `get_bytes_with_varint_length` -/
-def get_bytes_with_varint_length (b : Octets) : Res BufferTooShortError (Octets × Octets) :=
+def get_bytes_with_varint_length (b : Octets) : Res (BufferTooShortError × Octets) (Octets × Octets) :=
   match get_varint b with
-  | .ok (b', len) => get_bytes b' (len % 2 ^ 64)
-  | .err e => .err e
+  | .ok (b', len) =>
+    match get_bytes b' (len % 2 ^ 64) with
+    | .ok r => .ok r
+    | .err e => .err (e, b')      -- the length prefix has been consumed
+    | .panic s => .panic s
+  | .err e => .err (e, b)
   | .panic s => .panic s
 end Octets
 
@@ -520,10 +572,11 @@ structure ReadCursor where
 /-- `Cursor::new(slice)` -/
 def ReadCursor.new (buf : List Nat) : ReadCursor := ⟨buf, 0⟩
 
-/-- `read_exact(&mut dst)` with `dst.len() = n`: `UnexpectedEof` when fewer than `n` bytes remain, else the next
+/-- `read_exact(&mut dst)` with `dst.len() = n`: `UnexpectedEof` when fewer than `n` bytes remain (std then moves the
+    cursor to the end; the contents of `dst` are unspecified and are not used by the translated code), else the next
     `n` bytes and the position advances -/
-def ReadCursor.read_exact (c : ReadCursor) (n : Nat) : Res IoError (ReadCursor × List Nat) :=
-  if (c.buf.drop c.pos).length < n then .err .opaque
+def ReadCursor.read_exact (c : ReadCursor) (n : Nat) : Res (IoError × ReadCursor) (ReadCursor × List Nat) :=
+  if (c.buf.drop c.pos).length < n then .err (.opaque, { c with pos := c.buf.length })
   else .ok ({ c with pos := c.pos + n }, (c.buf.drop c.pos).take n)
 
 /-- `io::Cursor<&mut [u8]>` used through `io::Write` -/
@@ -540,11 +593,11 @@ def WriteCursor.write (c : WriteCursor) (b : List Nat) : Res IoError (WriteCurso
   let n := min b.length (c.buf.length - c.pos)
   .ok ({ buf := c.buf.take c.pos ++ b.take n ++ c.buf.drop (c.pos + n), pos := c.pos + n }, n)
 
-/-- `Write::write_all`: `WriteZero` when the bytes do not fit (the partially written cursor is dropped with the
-    error, as for every `&mut` cursor parameter) -/
-def WriteCursor.write_all (c : WriteCursor) (b : List Nat) : Res IoError (WriteCursor × Unit) :=
+/-- `Write::write_all`: `WriteZero` when the bytes do not fit; the error carries the cursor after the partial write
+    (the buffer is filled to its end) -/
+def WriteCursor.write_all (c : WriteCursor) (b : List Nat) : Res (IoError × WriteCursor) (WriteCursor × Unit) :=
   if b.length ≤ c.buf.length - c.pos then
     .ok ({ buf := c.buf.take c.pos ++ b ++ c.buf.drop (c.pos + b.length), pos := c.pos + b.length }, ())
-  else .err .opaque
+  else .err (.opaque, { buf := c.buf.take c.pos ++ b.take (c.buf.length - c.pos), pos := max c.pos c.buf.length })
 
 end RenetVerif.RustSem
